@@ -520,7 +520,18 @@ def _stale(B, sym, d, chosen, site_bb, F=None):
                 r = r[1]
             if through_ref and r[0] in ("var", "arg", "tmp"):
                 fields.add((r[2] if r[0] != "tmp" else r[1], x[2]))
-    if not locs and not fields:
+    # ... and anything else read through a `&mut` reference (`v.len()` with v: &mut Vec): changed by whoever is handed v mutably
+    mroots = set()
+    for x in M.subterms(sym):
+        if x[0] == "deref":
+            r = x[1]
+            while r[0] in ("field", "deref", "ref", "index", "downcast"):
+                r = r[1]
+            l_ = r[2] if r[0] in ("var", "arg") and len(r) > 2 else (r[1] if r[0] == "tmp" else None)
+            if isinstance(l_, int) and (B.local_ty(l_) or "").lstrip().startswith("&mut"):
+                mroots.add(l_)
+    cells = any(x[0] == "call" and x[1] and REFCELL_RX.match(x[1]) for x in M.subterms(sym))
+    if not locs and not fields and not mroots and not cells:
         return False
     key = ("_between", d, chosen, site_bb)
     if key not in B._cache:
@@ -534,9 +545,16 @@ def _stale(B, sym, d, chosen, site_bb, F=None):
                 if bi == site_bb and si == "term":
                     continue     # the site's own result
                 return True
-    if fields:
+    if cells:
+        # read through a RefCell: an exclusive borrow taken in between may change what was read
+        for bi in between:
+            tt = B.blocks[bi]["term"]
+            if tt["k"] == "call" and bi != site_bb and not B.blocks[bi].get("cleanup") and tt.get("callee") and REFCELL_RX.match(tt["callee"]) \
+                    and not tt["callee"].endswith("::borrow"):
+                return True
+    if fields or mroots:
         names = {n for _, n in fields}
-        roots = {r for r, _ in fields}
+        roots = {r for r, _ in fields} | mroots
         for bi in between:
             blk = B.blocks[bi]
             if blk.get("cleanup"):
@@ -556,7 +574,9 @@ def _stale(B, sym, d, chosen, site_bb, F=None):
                                 root = rv["pl"]["l"]
                                 borrowed = {pe.get("n") for pe in rv["pl"]["p"] if isinstance(pe, dict) and pe.get("n")}
                                 cal = tt.get("callee")
-                                if borrowed:
+                                if root in mroots and not names:
+                                    pass         # the whole value behind the reference is at the callee's mercy
+                                elif borrowed:
                                     # `&mut self.stack` exposes that field only
                                     if not (borrowed & names) and not (cal in (F.fns if F is not None else {}) and (_writes(F, cal) & (names | {"*"}))):
                                         continue
@@ -1253,7 +1273,8 @@ class Audit:
     def _describe(self, B, cx, s):
         """the site with its operands as symbolic terms over the function's parameters, named variables and calls
         (temporaries substituted, `&*x` collapsed, nothing truncated): what the reviewed tables are matched against"""
-        sh = lambda o: M.show(_simp(B.sym_op(o, through_vars="pure")), -30)
+        # ("desc": for naming a site, named values are written out as the expression that computed them; nothing is proved from it)
+        sh = lambda o: M.show(_simp(B.sym_op(o, through_vars="desc")), -30)
         if s.kind == "assert":
             m = s.operands
             parts = ["%s=%s" % (k, sh(m[k])) for k in ("len", "index", "a", "b") if k in m and isinstance(m[k], dict)]
